@@ -58,6 +58,21 @@ def run(ctx):
     core.lean_phase(ctx)
     rng = ctx.rng
     reqs, metas = [], []
+
+    def flush():
+        outs = ctx.driver.run(reqs) if reqs else []
+        for req, (replay, info, impl_rebased, base), out in zip(reqs, metas, outs):
+            ctx.count("model_requests")
+            if "ok" not in out or out["ok"] is None:
+                ctx.mismatch("stepMap", replay, "a rebased step", out)
+                continue
+            stm, ms = outcome(lambda: info.un_step(out["ok"]))
+            d1 = apply_doc(ms, base) if stm == "ok" else None
+            d2 = apply_doc(impl_rebased, base)
+            if (d1 is None) != (d2 is None) or (d1 is not None and not d1.eq(d2)):
+                ctx.mismatch("stepMap", replay, "same effect of the rebased step", {"model": out["ok"], "impl": impl_rebased.to_json()})
+        del reqs[:], metas[:]
+
     fam = schemas.family()
     for si in range(ctx.budget(14, 60)):
         info = fam[si % len(fam)]
@@ -101,17 +116,9 @@ def run(ctx):
                     for (x, y, x2, dy) in ((a, b, a2, db), (b, a, b2, da)):
                         reqs.append({"op": "stepMap", "step": info.step(x), "m": step_map(y.get_map())})
                         metas.append((replay, info, x2, dy))
-    outs = ctx.driver.run(reqs) if reqs else []
-    for req, (replay, info, impl_rebased, base), out in zip(reqs, metas, outs):
-        ctx.count("model_requests")
-        if "ok" not in out or out["ok"] is None:
-            ctx.mismatch("stepMap", replay, "a rebased step", out)
-            continue
-        stm, ms = outcome(lambda: info.un_step(out["ok"]))
-        d1 = apply_doc(ms, base) if stm == "ok" else None
-        d2 = apply_doc(impl_rebased, base)
-        if (d1 is None) != (d2 is None) or (d1 is not None and not d1.eq(d2)):
-            ctx.mismatch("stepMap", replay, "same effect of the rebased step", {"model": out["ok"], "impl": impl_rebased.to_json()})
+                    if len(reqs) >= 20000:
+                        flush()     # keep memory bounded in long (thorough) runs
+    flush()
     return ctx.finish(
         rule="a case is (base document, step A, step B) where A and B are the first steps emitted by two random high-level "
              "operations on the same base document and their touched ranges are separated by at least one untouched token; "
